@@ -201,3 +201,11 @@ Theorem C07_identity_packing_keeps_values :
   unpack_elem dd None (Some (to, Fin 0)) x = x.
 Proof. exact identity_packing_keeps_values. Qed.
 Print Assumptions C07_identity_packing_keeps_values.
+
+(* The fill, missing and valid values of an _Unsigned variable are compared with the viewed
+   data after being created and viewed in ONE byte order (after handoff/C07-fix3-2.diff that
+   of the data): they are then the values the value-level model and the specification use. *)
+Theorem C07_attribute_view_same_order :
+  forall bo d v, is_float d = false -> safe_val d v = true -> attr_view bo bo d v = vw d true v.
+Proof. exact attr_view_same_order. Qed.
+Print Assumptions C07_attribute_view_same_order.
